@@ -91,7 +91,9 @@ def run_scenario(task):
             return [frozenset(byt.get(tmin + k + 1.0, set())) for k in range(nsteps)], None
         arr = l.result["arr"]
         # arrays only give counts: project the kernel on |new|
-        S = arr[1]
+        S, I = arr[1], arr[2]
+        if sis:
+            return [int(I[k + 1]) for k in range(len(I) - 1)], arr   # everyone infectious recovers, so I[k+1] = newly infected
         return [int(S[k] - S[k + 1]) for k in range(len(S) - 1)], arr
 
     def on_leaf(l):
@@ -146,7 +148,7 @@ def run_scenario(task):
             if t != [float(tmin + k) for k in range(len(t))]:
                 problems.append({"kind": "times", "detail": "times %r" % (t,)})
                 break
-            ok = all(I[k + 1] == S[k] - S[k + 1] for k in range(len(S) - 1))
+            ok = sis or all(I[k + 1] == S[k] - S[k + 1] for k in range(len(S) - 1))
             if not sis:
                 R = arr[3]
                 ok = ok and all(R[k + 1] == R[k] + I[k] for k in range(len(R) - 1)) and all(S[k] + I[k] + R[k] == n for k in range(len(S)))
